@@ -3,7 +3,7 @@
 # copy the deliverables to /verif/seeded/<name>/ and print the two exit codes.
 ID=$1; NAME=$2; WT=${3:-/tmp/seed-$ID}
 set -u
-mkdir -p /verif/seeded/$NAME && cp $WT/SEED/* /verif/seeded/$NAME/
+mkdir -p /verif/seeded/$NAME && cp -r $WT/SEED/* /verif/seeded/$NAME/
 cd $WT || exit 2
 DEMO=$(ls SEED | grep -E '^demo\.(sh|py)$' | head -1)
 run() { if [[ $DEMO == *.py ]]; then python3 SEED/$DEMO; else bash SEED/$DEMO; fi; }
